@@ -37,16 +37,16 @@ def items(cells):
 
 def expected_slice(cells, a, b):
     """-> list of (cell, required followers or None, allowed followers).  Zero-width
-    characters following a character that lies wholly inside [a, b) and ends strictly
-    before b are displayed inside the range and must be kept; those sitting exactly on the
-    right edge b, and those of a cut character, are don't-care (None)."""
+    characters following a character that lies wholly inside [a, b) are displayed in that
+    character's column(s), hence inside the range, and must be kept - also when that character
+    ends exactly at b; those of a character cut by an edge are don't-care (None)."""
     lead, its = items(cells)
     E = []
     for cs, ce, cell, fol in its:
         if ce <= a or cs >= b:
             continue
         if cs >= a and ce <= b:
-            E.append((cell, fol if ce < b else None, fol))
+            E.append((cell, fol, fol))       # a combining character is displayed in its base character's column
         else:
             sp = (" ",) + cell[1:]
             for _ in range(min(ce, b) - max(cs, a)):
